@@ -12,7 +12,7 @@ notice it?).
 import json, os, subprocess, sys, shutil, time, glob
 
 VERIF = os.path.dirname(os.path.dirname(os.path.abspath(__file__)))
-ROOT = "/tmp/ep_selftest"
+ROOT = os.environ.get("VERIF_SELFTEST_ROOT") or "/tmp/ep_selftest"
 WT = os.path.join(ROOT, "repo")
 HARN = os.path.join(ROOT, "harness")
 ALL = ["C%02d" % i for i in range(1, 18)]
